@@ -44,38 +44,48 @@ Proof.
     destruct (is_true xmn), (is_true xmx); cbn [andb]; rewrite ?Ha1, ?Hb1; reflexivity.
 Qed.
 
+Lemma strip_prefix_app p x : strip_prefix p (p ++ x) = x.
+Proof. induction p as [|c r IH]; cbn; [destruct x; reflexivity|]. rewrite N.eqb_refl. exact IH. Qed.
+
 (* enum: numbers back to the (short) names *)
 Lemma short_of_mapped env name z :
+  zero_std env = true ->
   map_value env name = Some z -> short_name env z = Some (short env name).
 Proof.
-  intro H. unfold map_value in H. apply lookup_from_some in H as [k [o [Hk [Hz Hp]]]].
-  unfold short_name, short.
-  assert (Hlen : (k < length (ee_options env))%nat) by (apply nth_error_Some; congruence).
-  destruct (Z.eqb_spec z 0); [lia|].
-  destruct (Z.leb_spec 1 z); [|lia].
-  destruct (Z.leb_spec z (Z.of_nat (length (ee_options env)))); [|lia].
-  cbn [andb]. replace (Z.to_nat (z - 1)) with k by lia. rewrite Hk. rewrite Hp. reflexivity.
+  intros Hstd H. apply map_value_name in H. unfold short.
+  apply option_name_spec in H as [[o [H1 [Hn Hp]]]|[H0 [zn [Hz Hp]]]].
+  - unfold short_name.
+    assert (Hlen : (Z.to_nat (z - 1) < length (ee_options env))%nat) by (apply nth_error_Some; congruence).
+    destruct (Z.eqb_spec z 0); [lia|].
+    destruct (Z.leb_spec 1 z); [|lia].
+    destruct (Z.leb_spec z (Z.of_nat (length (ee_options env)))); [|lia].
+    cbn [andb]. rewrite Hn, Hp. reflexivity.
+  - subst z. unfold short_name. cbn. rewrite Hp.
+    unfold zero_std in Hstd. rewrite Hz in Hstd. apply str_eqb_eq in Hstd. rewrite Hstd.
+    unfold trim_prefix. rewrite has_prefix_app, strip_prefix_app. reflexivity.
 Qed.
 
 Lemma names_in_mapped env names : forall zs,
+  zero_std env = true ->
   map_values env names = Ok zs -> names_in env zs = Ok (map (short env) names).
 Proof.
-  induction names as [|n r IH]; intros zs H; cbn in H.
+  induction names as [|n r IH]; intros zs Hstd H; cbn in H.
   - inversion H. reflexivity.
   - destruct (map_value env n) as [z|] eqn:E; [|discriminate].
     destruct (map_values env r) as [zr| | |] eqn:Er; cbn in H; try discriminate.
-    inversion H; subst. cbn [names_in map]. rewrite (short_of_mapped env n z E).
-    rewrite (IH zr eq_refl). reflexivity.
+    inversion H; subst. cbn [names_in map]. rewrite (short_of_mapped env n z Hstd E).
+    rewrite (IH zr Hstd eq_refl). reflexivity.
 Qed.
 Lemma names_notin_mapped env names : forall zs,
+  zero_std env = true ->
   map_values env names = Ok zs -> names_notin env zs = Ok (map (short env) names).
 Proof.
-  induction names as [|n r IH]; intros zs H; cbn in H.
+  induction names as [|n r IH]; intros zs Hstd H; cbn in H.
   - inversion H. reflexivity.
   - destruct (map_value env n) as [z|] eqn:E; [|discriminate].
     destruct (map_values env r) as [zr| | |] eqn:Er; cbn in H; try discriminate.
-    inversion H; subst. cbn [names_notin map]. rewrite (short_of_mapped env n z E).
-    rewrite (IH zr eq_refl). reflexivity.
+    inversion H; subst. cbn [names_notin map]. rewrite (short_of_mapped env n z Hstd E).
+    rewrite (IH zr Hstd eq_refl). reflexivity.
 Qed.
 
 Lemma id62_not_wellknown :
@@ -108,10 +118,11 @@ Proof.
 Qed.
 
 Lemma field_rt env m t w :
+  zero_std env = true ->
   rt_fty m t = true -> write_field env t = Ok w ->
   read_field env (fw_kind w) (vt_seen m w) (list_seen m w) (j5_seen m w) (fw_key w) = Ok (norm_fty env t).
 Proof.
-  intros Hrt Hw. unfold rt_fty in Hrt. apply andb_true_iff in Hrt as [Hnl Hrt].
+  intros Hstd Hrt Hw. unfold rt_fty in Hrt. apply andb_true_iff in Hrt as [Hnl Hrt].
   assert (Hls : list_seen m w = fw_list w).
   { destruct m; try reflexivity. cbn [list_seen]. symmetry. eapply no_list_arm; eauto. }
   rewrite Hls. clear Hls Hnl. unfold vt_seen.
@@ -151,7 +162,7 @@ Proof.
     destruct r as [r|].
     + apply obind_ok in Hio as [zi [Hzi Hio]]. apply obind_ok in Hio as [zn [Hzn Hio]].
       inversion Hio; subst io. cbn [fst snd].
-      rewrite (names_in_mapped env _ _ Hzi), (names_notin_mapped env _ _ Hzn). reflexivity.
+      rewrite (names_in_mapped env _ _ Hstd Hzi), (names_notin_mapped env _ _ Hstd Hzn). reflexivity.
     + inversion Hio; subst io. reflexivity.
   - (* key *)
     apply obind_ok in Hw as [lst [Hl Hw]]. inversion Hw; subst w; clear Hw.
@@ -397,10 +408,11 @@ Proof.
 Qed.
 
 Theorem c04_prop env idx d o :
+  zero_std env = true ->
   rt_ok d = true -> write_prop env idx d = Ok o ->
   read_prop env o = Ok (norm_prop env idx d).
 Proof.
-  intros Hrt Hw.
+  intros Hstd Hrt Hw.
   destruct d as [name req opt ty desc]. unfold rt_ok in Hrt. cbn [p_ty p_opt p_desc] in Hrt.
   apply andb_true_iff in Hrt as [Hdesc Hrt]. apply desc_plain_eq in Hdesc.
   unfold write_prop in Hw. cbn [p_name p_req p_opt p_ty p_desc] in Hw.
@@ -420,7 +432,7 @@ Proof.
     pose proof (kind_not_map env t w Hwf) as Hk.
     destruct (fw_kind w) eqn:Ek; try (exfalso; eapply Hk; reflexivity);
       rewrite <- Ek;
-      pose proof (field_rt env MSingle t w Hrt Hwf) as Hf;
+      pose proof (field_rt env MSingle t w Hstd Hrt Hwf) as Hf;
       unfold vt_seen in Hf; cbn [list_seen j5_seen] in Hf;
       replace (match (if required then set_required (fw_val w) else fw_val w) with
                | Some c => c_ty c | None => None end) with (vt_of (fw_val w))
@@ -444,7 +456,7 @@ Proof.
     unfold read_prop.
     cbn [fo_kind fo_rep fo_val fo_list fo_ext fo_key fo_json fo_number fo_desc fo_opt].
     pose proof (kind_not_map env t wi Hwt) as Hk.
-    pose proof (field_rt env MArray t wi Hrt Hwt) as Hf.
+    pose proof (field_rt env MArray t wi Hstd Hrt Hwt) as Hf.
     unfold vt_seen in Hf; cbn [list_seen j5_seen] in Hf.
     destruct (fw_kind wi) eqn:Ek; try (exfalso; eapply Hk; reflexivity);
       lazy iota beta;
@@ -460,7 +472,7 @@ Proof.
     rewrite orb_false_r in Hw. inversion Hw; subst o; clear Hw.
     unfold read_prop.
     cbn [fo_kind fo_rep fo_val fo_list fo_ext fo_key fo_json fo_number fo_desc fo_opt].
-    pose proof (field_rt env MMap t wi Hrt Hwt) as Hf.
+    pose proof (field_rt env MMap t wi Hstd Hrt Hwt) as Hf.
     unfold vt_seen in Hf; cbn [list_seen j5_seen] in Hf.
     unfold norm_prop. cbn [p_name p_req p_opt p_ty p_desc]. rewrite orb_false_r.
     rewrite <- (write_field_constrained env t wi Hwt).
@@ -571,12 +583,13 @@ Qed.
 
 (* a property reads back as declared exactly when it lies in the fragment *)
 Theorem c04_prop_exact env idx d o :
+  zero_std env = true ->
   write_prop env idx d = Ok o ->
   (read_prop env o = Ok (norm_prop env idx d) <-> rt_ok d = true).
 Proof.
-  intro Hw. split.
+  intros Hstd Hw. split.
   - intro H. destruct (rt_ok d) eqn:E; [reflexivity|]. exfalso. exact (c04_prop_conv env idx d o E Hw H).
-  - intro H. exact (c04_prop env idx d o H Hw).
+  - intro H. exact (c04_prop env idx d o Hstd H Hw).
 Qed.
 
 (* ---------------------------------------------------------------- objects *)
@@ -588,28 +601,31 @@ Fixpoint norm_props_from (env : enum_env) (idx : N) (ds : list prop) : list rpro
 Definition norm_object (env : enum_env) (ds : list prop) : list rprop := norm_props_from env 0%N ds.
 
 Lemma c04_props_from env ds : forall idx os,
+  zero_std env = true ->
   forallb rt_ok ds = true -> write_props_from env idx ds = Ok os ->
   read_object env os = Ok (norm_props_from env idx ds).
 Proof.
-  induction ds as [|d r IH]; intros idx os Hrt Hw; cbn in Hw.
+  induction ds as [|d r IH]; intros idx os Hstd Hrt Hw; cbn in Hw.
   - inversion Hw. reflexivity.
   - cbn [forallb] in Hrt. apply andb_true_iff in Hrt as [Hd Hr].
     apply obind_ok in Hw as [o [Ho Hw]]. apply obind_ok in Hw as [os' [Hos Hw]].
     inversion Hw; subst os. cbn [read_object norm_props_from].
-    rewrite (c04_prop env idx d o Hd Ho). cbn [obind].
-    rewrite (IH (idx + 1)%N os' Hr Hos). reflexivity.
+    rewrite (c04_prop env idx d o Hstd Hd Ho). cbn [obind].
+    rewrite (IH (idx + 1)%N os' Hstd Hr Hos). reflexivity.
 Qed.
 
 Theorem c04_object env ds os :
+  zero_std env = true ->
   forallb rt_ok ds = true -> write_object env ds = Ok os ->
   read_object env os = Ok (norm_object env ds).
 Proof. apply c04_props_from. Qed.
 
 Lemma c04_props_from_exact env ds : forall idx os,
+  zero_std env = true ->
   write_props_from env idx ds = Ok os ->
   (read_object env os = Ok (norm_props_from env idx ds) <-> forallb rt_ok ds = true).
 Proof.
-  induction ds as [|d r IH]; intros idx os Hw; cbn in Hw.
+  induction ds as [|d r IH]; intros idx os Hstd Hw; cbn in Hw.
   - inversion Hw. split; reflexivity.
   - apply obind_ok in Hw as [o [Ho Hw]]. apply obind_ok in Hw as [os' [Hos Hw]].
     inversion Hw; subst os. cbn [read_object norm_props_from forallb].
@@ -618,38 +634,73 @@ Proof.
       destruct (read_object env os') as [ps| | |] eqn:Eps; cbn [obind] in H; try discriminate.
       inversion H; subst.
       apply andb_true_iff. split.
-      * apply (c04_prop_exact env idx d o Ho). exact Ep.
-      * apply (IH (idx + 1)%N os' Hos). exact Eps.
+      * apply (c04_prop_exact env idx d o Hstd Ho). exact Ep.
+      * apply (IH (idx + 1)%N os' Hstd Hos). exact Eps.
     + intro H. apply andb_true_iff in H as [Hd Hr].
-      rewrite (c04_prop env idx d o Hd Ho). cbn [obind].
-      rewrite (proj2 (IH (idx + 1)%N os' Hos) Hr). reflexivity.
+      rewrite (c04_prop env idx d o Hstd Hd Ho). cbn [obind].
+      rewrite (proj2 (IH (idx + 1)%N os' Hstd Hos) Hr). reflexivity.
 Qed.
 
 (* an object reads back as declared exactly when all its properties lie in the fragment *)
 Theorem c04_object_exact env ds os :
+  zero_std env = true ->
   write_object env ds = Ok os ->
   (read_object env os = Ok (norm_object env ds) <-> forallb rt_ok ds = true).
 Proof. apply c04_props_from_exact. Qed.
 
-(* the normal form keeps names, order and positions *)
-Lemma norm_object_names env ds :
-  map (fun r => p_name (rp_prop r)) (norm_object env ds) = map p_name ds.
+(* ---------------------------------------------------------------- names, order, paths: for EVERY compiled object *)
+(* whatever else is lost, a reflected object has the declared property names in
+   the declared order and the proto field paths [1], [2], ... — also outside the
+   fragment (no rt_ok hypothesis) *)
+Lemma read_prop_name_path env o r :
+  read_prop env o = Ok r -> p_name (rp_prop r) = fo_json o /\ rp_path r = [fo_number o].
 Proof.
-  unfold norm_object. generalize 0%N. induction ds as [|d r IH]; intro i; cbn; [reflexivity|].
-  rewrite IH. reflexivity.
+  unfold read_prop. intro H.
+  destruct (fo_kind o); try (destruct (fo_rep o));
+    repeat match type of H with
+           | (let '(_, _) := ?x in _) = _ => destruct x
+           end;
+    apply obind_ok in H as [t [_ H]]; inversion H; split; reflexivity.
 Qed.
 
-Lemma norm_object_paths env ds :
-  map rp_path (norm_object env ds) = map (fun i => [N.of_nat i]) (seq 1 (length ds)).
+Lemma write_prop_name_number env idx d o :
+  write_prop env idx d = Ok o -> fo_json o = p_name d /\ fo_number o = (idx + 1)%N.
 Proof.
-  unfold norm_object.
-  assert (H : forall i, map rp_path (norm_props_from env (N.of_nat i) ds)
-                        = map (fun i => [N.of_nat i]) (seq (S i) (length ds))).
-  { induction ds as [|d r IH]; intro i; cbn [norm_props_from map length seq]; [reflexivity|].
-    f_equal.
-    - unfold norm_prop. cbn. f_equal. lia.
-    - replace (N.of_nat i + 1)%N with (N.of_nat (S i)) by lia. apply IH. }
-  exact (H O).
+  unfold write_prop. intro H. apply obind_ok in H as [w [_ H]].
+  match type of H with (if ?c then _ else _) = _ => destruct c; [discriminate|] end.
+  inversion H. split; reflexivity.
+Qed.
+
+Theorem read_names_paths env ds : forall idx os rs,
+  write_props_from env idx ds = Ok os -> read_object env os = Ok rs ->
+  map (fun r => p_name (rp_prop r)) rs = map p_name ds /\
+  map rp_path rs = map (fun i => [(idx + N.of_nat i)%N]) (seq 1 (length ds)).
+Proof.
+  induction ds as [|d r IH]; intros idx os rs Hw Hr; cbn in Hw.
+  - inversion Hw; subst. cbn in Hr. inversion Hr. split; reflexivity.
+  - apply obind_ok in Hw as [o [Ho Hw]]. apply obind_ok in Hw as [os' [Hos Hw]].
+    inversion Hw; subst os. cbn [read_object] in Hr.
+    apply obind_ok in Hr as [p [Hp Hr]]. apply obind_ok in Hr as [ps [Hps Hr]]. inversion Hr; subst rs.
+    destruct (read_prop_name_path env o p Hp) as [Hn Hpath].
+    destruct (write_prop_name_number env idx d o Ho) as [Hj Hnum].
+    destruct (IH (idx + 1)%N os' ps Hos Hps) as [IHn IHp].
+    cbn [map length seq]. split.
+    + rewrite Hn, Hj, IHn. reflexivity.
+    + rewrite Hpath, Hnum, IHp.
+      assert (Ht : map (fun i : nat => [(idx + 1 + N.of_nat i)%N]) (seq 1 (length r))
+                   = map (fun i : nat => [(idx + N.of_nat i)%N]) (seq 2 (length r))).
+      { rewrite <- (seq_shift (length r) 1), map_map. apply map_ext. intro i. f_equal.
+        rewrite Nat2N.inj_succ. lia. }
+      rewrite Ht. reflexivity.
+Qed.
+
+Theorem c04_names_order_paths env ds os rs :
+  write_object env ds = Ok os -> read_object env os = Ok rs ->
+  map (fun r => p_name (rp_prop r)) rs = map p_name ds /\
+  map rp_path rs = map (fun i => [N.of_nat i]) (seq 1 (length ds)).
+Proof.
+  intros Hw Hr. destruct (read_names_paths env ds 0%N os rs Hw Hr) as [H1 H2]. split; [exact H1|].
+  rewrite H2. apply map_ext. intro i. reflexivity.
 Qed.
 
 (* the normal form changes no meaning: the declared rules of the normal form
@@ -666,9 +717,6 @@ Proof. rewrite <- !int_rule_ok_spec, norm_int_ok. reflexivity. Qed.
 
 (* ---------------------------------------------------------------- enums as roots *)
 From J5V.model Require Import RulesEnum.
-
-Lemma strip_prefix_app p x : strip_prefix p (p ++ x) = x.
-Proof. induction p as [|c r IH]; cbn; [destruct x; reflexivity|]. rewrite N.eqb_refl. exact IH. Qed.
 
 Lemma has_suffix_app p suf : has_suffix suf (p ++ suf) = true.
 Proof. unfold has_suffix. rewrite rev_app_distr. apply has_prefix_app. Qed.
